@@ -568,7 +568,7 @@ theorem inv_cUnlinkPid (s s' : St) (h : Inv s) (n : Nat) (ha : accept s (.cUnlin
   simp only [accept] at ha
   split at ha
   next hg =>
-    obtain ⟨_, _, hst⟩ := hg
+    obtain ⟨_, hst⟩ := hg
     cases ha
     have hnlo : ∀ m, noLiveOwner s m → noLiveOwner { s with pidf := upd s.pidf n false } m := fun m hno => hno
     constructor
@@ -1181,6 +1181,17 @@ theorem inv_step (s s' : St) (e : Ev) (h : Inv s) (ha : accept s e = some s') : 
     · cases ha
   | dObs n f p => exact inv_dObs s s' h n f p ha
   | dOpenTodo n => exact inv_dOpenTodo s s' h n ha
+  | dAbortTodo =>
+    simp only [accept] at ha
+    split at ha
+    · cases ha
+      have hk := h.kn
+      apply inv_daemon s _ h 0 <;> try simp
+      · exact h.doc 0
+      · exact h.known
+      · simp [ModeInv]
+      · exact ⟨hk.infoPres, hk.infoAbs, hk.locAbs, hk.remAbs, hk.bounceAbs, hk.todoAbs, hk.messPres, hk.unlinkedInfo⟩
+    · cases ha
   | dUnlink n f => exact inv_dUnlink s s' h n f ha
   | dCreat n f => exact inv_dCreat s s' h n f ha
   | dReq b n => exact inv_dReq s s' h b n ha
